@@ -441,14 +441,13 @@ func (p *partition) Subscribe(ctx context.Context, req *client.SubscribeRequest)
 	}
 
 	cancel := make(chan struct{})
-	p.srv.startGoroutine(p.newSubscribeLoop(ctx, groupID, consumerID, reader,
-		stopOffset, ch, errCh, cancel, req.Reverse))
-
 	sub := &subscription{
 		closed: cancel,
 		msgs:   ch,
 		errors: errCh,
 	}
+	p.srv.startGoroutine(p.newSubscribeLoop(ctx, groupID, consumerID, sub, reader,
+		stopOffset, ch, errCh, cancel, req.Reverse))
 
 	if groupID != "" {
 		p.consumers[groupID] = &groupMember{
@@ -464,7 +463,7 @@ func (p *partition) Subscribe(ctx context.Context, req *client.SubscribeRequest)
 // newSubscribeLoop returns a function to be called in a goroutine which starts
 // the subscription loop.
 func (p *partition) newSubscribeLoop(ctx context.Context, groupID, consumerID string,
-	reader commitlog.MessageReader, stopOffset int64, ch chan<- *client.Message, errCh chan<- *status.Status,
+	sub *subscription, reader commitlog.MessageReader, stopOffset int64, ch chan<- *client.Message, errCh chan<- *status.Status,
 	cancel <-chan struct{}, reverse bool) func() {
 
 	return func() {
@@ -472,7 +471,7 @@ func (p *partition) newSubscribeLoop(ctx context.Context, groupID, consumerID st
 		p.increaseSubscriberCount()
 		defer p.decreaseSubscriberCount()
 		if groupID != "" {
-			defer p.removeGroupSubscriber(groupID, consumerID)
+			defer p.removeGroupSubscriber(groupID, consumerID, sub)
 		}
 
 		headersBuf := make([]byte, 28)
@@ -557,17 +556,22 @@ func (p *partition) newSubscribeLoop(ctx context.Context, groupID, consumerID st
 	}
 }
 
-func (p *partition) removeGroupSubscriber(groupID, consumerID string) {
+// removeGroupSubscriber removes the group's entry when a subscribe loop exits,
+// but only if the entry still refers to that loop's own subscription. The
+// member may have been replaced in the meantime, possibly by a new
+// subscription of the same consumer id (e.g. a consumer re-subscribing after a
+// reconnect), whose entry must stay so that the next subscriber cancels it.
+func (p *partition) removeGroupSubscriber(groupID, consumerID string, sub *subscription) {
 	if verifhook.Enabled {
 		verifhook.Point("sub.beforeRemoveGroup", p.Stream, p.Id, groupID, consumerID) // nolint: errcheck
 	}
 	p.consumersMu.Lock()
 	defer p.consumersMu.Unlock()
-	sub, ok := p.consumers[groupID]
+	member, ok := p.consumers[groupID]
 	if !ok {
 		return
 	}
-	if sub.consumerID == consumerID {
+	if member.sub == sub {
 		delete(p.consumers, groupID)
 	}
 }
